@@ -104,6 +104,13 @@ WideCastCases(from, to) ==
 LongCast(from, to) ==
    LET X == T(from, <<2, 20001>>, [k \in 1..40002 |-> Fin((k % 7) + 1)]) s == SemCast(X, to) IN
    P(CaseRec("cast", "Cast", <<AI("to", OnnxCode(to))>>, <<LowerT(X)>>, LowerA(s), <<Tag(s), "long_tensor", from \o "->" \o to>>))
+\* floats strictly between -1 and 0 truncate to 0, which every unsigned type holds: in range, so the conversion is determined
+NegFractionToUnsigned ==
+   \A from \in {"f32", "f64"}, to \in {"u8", "u16", "u32", "u64"} :
+      /\ LET X == T(from, <<2, 2>>, <<Rat(-1, 2), Fin(3), Rat(-1, 4), Rat(-3, 4)>>) IN
+         P(CaseRec("cast", "Cast", <<AI("to", OnnxCode(to))>>, <<X>>, MustValue(<<T(to, <<2, 2>>, <<Fin(0), Fin(3), Fin(0), Fin(0)>>)>>), <<"value", "negative_fraction_to_unsigned", from \o "->" \o to>>))
+      /\ LET X == T(from, <<>>, <<Rat(-1, 2)>>) IN
+         P(CaseRec("cast", "Cast", <<AI("to", OnnxCode(to))>>, <<X>>, MustValue(<<T(to, <<>>, <<Fin(0)>>)>>), <<"value", "negative_fraction_to_unsigned", "scalar">>))
 CastInvalid(from) ==
    \A to \in {"bool", "string", "f16", "c64", "c128", "bf16", "undefined"} :
       LET X == Vec(from, <<Fin(1), Fin(0)>>) IN
@@ -126,7 +133,7 @@ Emit ==
    /\ CASE st.fam = "constant" -> ConstantCases
         [] st.fam = "cos" -> CosCases(st.shape)
         [] st.fam = "cosinvalid" -> CosInvalid
-        [] st.fam = "cast" -> CastCases(st.from, st.to) /\ (st.from = "i64" /\ st.to = "i64" => WideCastCases("i64", "i64") /\ UpperHalfCastCases)
+        [] st.fam = "cast" -> CastCases(st.from, st.to) /\ (st.from = "i64" /\ st.to = "i64" => WideCastCases("i64", "i64") /\ UpperHalfCastCases /\ NegFractionToUnsigned)
                                /\ (<<st.from, st.to>> \in {<<"f32", "i64">>, <<"i64", "f32">>, <<"f32", "f64">>, <<"i32", "f32">>} => LongCast(st.from, st.to))
                                /\ (st.from \in {"f32", "i64", "u8", "f64"} /\ st.to \in {"f32", "i64", "i32", "u8"} => TileCast(st.from, st.to))
         [] st.fam = "castinvalid" -> CastInvalid(st.from)
